@@ -94,6 +94,7 @@ func C07(c *ev.Ctx) {
 		info := pinfo{name: name, keys: map[string]string{}}
 		k := 4 + rr.IntN(8)
 		usesMachine := false
+		var std []string
 		var pieces []string
 		for j := 0; j < k; j++ {
 			it := normal[order[pos%len(order)]] // every construct at least once per run, then again in other company
@@ -103,6 +104,7 @@ func C07(c *ev.Ctx) {
 			if strings.Contains(decls+entry, "machine.") {
 				usesMachine = true
 			}
+			std = append(std, it.Imports()...)
 			pieces = append(pieces, decls, entry)
 			if ds, err := topDecls("package x\n" + decls + "\n" + entry); err == nil {
 				for _, d := range ds {
@@ -115,6 +117,7 @@ func C07(c *ev.Ctx) {
 		if usesMachine && !strings.Contains(src, "goose/machine\"") {
 			src = strings.Replace(src, "package gen\n\n", "package gen\n\nimport \"github.com/goose-lang/goose/machine\"\n\n", 1)
 		}
+		src = goosegen.AddImports(src, std)
 		src += "\n" + strings.Join(pieces, "\n")
 		info.src = src
 		d := filepath.Join(m.dir, name)
